@@ -1,4 +1,5 @@
 """C12 — DNA views are lossless and stay aligned with the specification."""
+import json
 import itertools
 import random
 
@@ -156,6 +157,7 @@ def _check_dna(res, spec, shape, d, origin, sig, full=True):
                   compact=str(compact), origin=origin, **sig)
       return True
   # dict views rebuild
+  int_lits = '"lit": "ints"' in json.dumps(shape)
   combos = [(kt, vt, 'subchoice', False) for kt in KEY_TYPES for vt in VALUE_TYPES] + [
       (kt, vt, mk, inc) for kt, vt in (('id', 'value'), ('name_or_id', 'literal'), ('dna_spec', 'dna'),
                                        ('name_or_id', 'choice_and_literal'))
@@ -167,7 +169,8 @@ def _check_dna(res, spec, shape, d, origin, sig, full=True):
     if True:
       try:
         dd = d.to_dict(key_type=kt, value_type=vt, multi_choice_key=mk, include_inactive_decisions=inc)
-        w = pg.DNA.from_dict(dict(dd), spec)
+        # integer literal values: from_dict reads an int as a candidate index unless told otherwise (documented)
+        w = pg.DNA.from_dict(dict(dd), spec, use_ints_as_literals=(vt == 'literal' and int_lits))
         same = w == d
         err = None
       except Exception as e:   # pylint: disable=broad-except
